@@ -12,7 +12,7 @@
 (*   getter  how the frame is designated                                     *)
 (*             check_input: none (first argument) | int (position) | str (name)*)
 (*             check_output: none | int (tuple element) | str (dict key) | callable*)
-(*             check_io: name ; check_types: annotation                       *)
+(*             check_io: name ; check_types: annotation (plain or Optional[..]) *)
 (*   dfpass, kpass   the frame / the other argument passed positionally, by    *)
 (*             keyword, or (k only) left to its default                        *)
 (*   opt     none | head1 | tail1 | lazy   validation options of the decorator *)
@@ -48,10 +48,10 @@ Getters(deco, sig) ==
   CASE deco = "check_input"  -> {"int", "str"} \cup (IF sig = "k_df" THEN {} ELSE {"none"})
     [] deco = "check_output" -> {"none", "int", "str", "callable"}
     [] deco = "check_io"     -> {"name"}
-    [] deco = "check_types"  -> {"annotation"}
+    [] deco = "check_types"  -> {"annotation", "annotation_optional"}     \* DataFrame[M] | Optional[DataFrame[M]]
 
 Scenarios ==
-  {s \in [deco : Decos, kind : Kinds, sig : Sigs, getter : {"none", "int", "str", "callable", "name", "annotation"},
+  {s \in [deco : Decos, kind : Kinds, sig : Sigs, getter : {"none", "int", "str", "callable", "name", "annotation", "annotation_optional"},
           dfpass : {"pos", "kw"}, kpass : {"pos", "kw", "default"}, opt : Opts,
           data : Datas \cup {"stale"}] :
      /\ s.getter \in Getters(s.deco, s.sig)
